@@ -209,6 +209,19 @@ func formatInlineSQL(cmd *cobra.Command, sql string) error {
 		return fmt.Errorf("formatting failed: %w", err)
 	}
 
+	// In check mode, compare original and formatted (same contract as for stdin)
+	if formatCheck {
+		if sql != formattedSQL {
+			fmt.Fprintf(cmd.ErrOrStderr(), "inline SQL needs formatting\n")
+			os.Exit(1)
+		}
+
+		if verbose {
+			fmt.Fprintf(cmd.OutOrStdout(), "inline SQL is properly formatted\n")
+		}
+		return nil
+	}
+
 	// Ensure trailing newline
 	if !strings.HasSuffix(formattedSQL, "\n") {
 		formattedSQL += "\n"
